@@ -7,7 +7,8 @@ C20 — erasure coding, proof binding, shard assignment. PROPERTY THEOREMS (help
   (ANY field, all n, k ≤ n, all shard lengths; Mathlib `det_vandermonde_ne_zero_iff`), `too_many_erasures_err`
   (executable model: fewer than k surviving shards ⇒ error)
 * shard assignment: `assign_spec`, `assign_deterministic`, `assign_pcg_spec`, `assign_panics`
-* validity proof relation: `relation_binds`, `relation_complete`, `relation_bytes_mod_r`
+* validity proof relation: `relation_binds`, `relation_complete`, `relation_bytes_mod_r`, `submit_ok_sound`
+  (proof loop of `Msg/SubmitValidityProof`)
 -/
 namespace Sunrise.C20
 open Sunrise Sunrise.RS Sunrise.Shards Sunrise.Zk Matrix
@@ -208,6 +209,24 @@ theorem relation_bytes_mod_r (mimc : Nat → Nat) (h : Nat) (y y' : List UInt8) 
   constructor
   · intro h'; rw [← hy, ← h']
   · intro e; rw [e]; exact hy
+
+/-- **handler soundness (relation level)** — if the proof loop of `Msg/SubmitValidityProof` accepts, then there are as many
+    proofs as indices, every index is inside `shard_double_hashes`, and every proof's value `MiMC(h_k)` equals the
+    field element of the double hash stored AT THAT INDEX (not any other). -/
+theorem submit_ok_sound (idx : List Int) (ms : List Nat) (ys : List (List UInt8))
+    (h : submitValidityProof idx ms ys = .ok ()) :
+    idx.length = ms.length ∧
+    ∀ k (hk : k < idx.length) (hk' : k < ms.length),
+      0 ≤ idx[k] ∧ idx[k] < ys.length ∧ relBytes (fun _ => ms[k]) 0 (ys.getD idx[k].toNat []) := by
+  unfold submitValidityProof at h
+  split at h
+  · simp at h
+  · rename_i hl
+    have hl' : idx.length = ms.length := by omega
+    exact ⟨hl', fun k hk hk' => submit_go_ok ys idx ms hl' h k hk hk'⟩
+
+example : (submitValidityProof [1, 0] [7, 5] [[5], [0, 7]]).isOk = true := by decide +kernel
+example : (submitValidityProof [0] [7] [[5], [7]]).isOk = false := by decide +kernel
 
 /-! ## the code over an arbitrary field -/
 
